@@ -16,6 +16,7 @@ package parser
 
 import (
 	"errors"
+	"strings"
 
 	"github.com/datastax/go-cassandra-native-protocol/message"
 )
@@ -52,6 +53,21 @@ func FilterColumns(stmt *SelectStatement, columns []*message.ColumnMetadata) (fi
 		filtered = append(filtered, cols...)
 	}
 	return filtered, nil
+}
+
+// normalizeCarriageReturns replaces carriage returns that are not part of a "\r\n" newline with a space. A lone
+// carriage return is whitespace in CQL, but the scanner only knows "\r\n" and "\n".
+func normalizeCarriageReturns(data string) string {
+	if strings.IndexByte(data, '\r') < 0 {
+		return data
+	}
+	b := []byte(data)
+	for i, c := range b {
+		if c == '\r' && (i+1 == len(b) || b[i+1] != '\n') {
+			b[i] = ' '
+		}
+	}
+	return string(b)
 }
 
 func isSystemTable(name Identifier) bool {
